@@ -25,6 +25,9 @@ CLAIMED = {
  'C09': ("Coq proof that filter_table's in1d mask + argsort(argsort(names)) gather on the name-sorted table is the by-name lookup for ANY row order of the parameter file (rank_of_rank, uniqueness of strictly sorted permutations; FTable.v, TableProofs.v) and of the (nanmin, best, nanmax) ranges; correspondence through the three writers and filter_table",
          "Theorems C09_lookup/by_name/lookup_sorted/rank_of_rank/prep_perm/ranges for any table size; write_parameters, write_parameter_ranges, extract_parameters and FitInfo.filter_table run on permuted parameter files with NaN cells, additional-parameter dictionaries, all selector forms and file/object/list inputs; outputs parsed back and compared by (source, rank).",
          "Trusts: Coq kernel; extraction; driver; harness (text parsing of the listings, name -> integer key encoding preserving byte order). Text layout is not modelled; values compared to the printed 4 significant digits. plot_params_1d/2d hand-off is represented by the same strip+sort+filter_table sequence, not by running the plot code.", "DESIGN.md 7/C09"),
+ 'C10': ("Coq proofs that the fit() driver loop = map o filter over the lines before the first end-of-input line (Loop.v), that an uncut stream of well-formed pickles reads back as written (framing model, Reader.v), and that post-processing calls on copies equal the same calls on a file and leave the caller's results unchanged (History.v; the aliasing variant is refuted by a witness); correspondence through fit(), FitInfoFile and all four post-processing functions",
+         "Theorems C10_records(_exec)/roundtrip/history(_exec)/aliasing_refuted; fit() run on data files with ineligible, blank and malformed lines and compared record-by-record with Fitter.fit+keep on the parsed lines; hand-built records with NaN/inf round-tripped with metadata; every sequence of <=3 calls of write_parameters/write_parameter_ranges/extract_parameters/filter_output x selectors on file / object / list compared across forms, with a deep before/after comparison of the caller's objects.",
+         "Trusts: Coq kernel; extraction; driver; harness. Pickle fidelity and object aliasing are run-time facts: decided by the correspondence runs, the model carries them as the framing model and the explicit copy/alias semantics (partial).", "DESIGN.md 7/C10"),
  'C20': ("Coq proof over the statement-by-statement model of Source.from_ascii (SrcAscii.v: slices, strides, truncating division, setter cross-checks) + correspondence on generated token lists incl. every column count",
          "Theorems C20_layout/reject/accept/flags/eof hold for token lists of any length; the extracted from_ascii_m is run against Source.from_ascii on valid lines (all flag vectors n<=3), every column count 0..3n+6 for n<=12, bad flags, bad numbers; round trips through to_ascii, dict and pickle are checked against the printed precision.",
          "Trusts: Coq kernel; extraction directives; driver; harness. int()/float() conversion of tokens is an oracle computed by Python; text formatting (to_ascii) is exercised, not modelled.", "DESIGN.md 7/C20"),
